@@ -6,11 +6,26 @@
 use super::*;
 use std::alloc::{alloc, Layout};
 
-static mut ALLOC_FAILS: bool = false;
+/// bit k set: the k-th `alloc_zeroed` request is refused (symbolic: WHICHEVER request fails)
+static mut FAIL_MASK: u8 = 0;
+static mut ZCALLS: u8 = 0;
+static mut REFUSED: u8 = 0;
+
+unsafe fn refuse_now() -> bool {
+    let k = ZCALLS;
+    if ZCALLS < 7 {
+        ZCALLS += 1;
+    }
+    let r = (FAIL_MASK >> k) & 1 == 1;
+    if r && REFUSED < 200 {
+        REFUSED += 1;
+    }
+    r
+}
 
 /// Contract-level model of `GlobalAlloc::alloc_zeroed`: zeroed block of the layout, or null.
 unsafe fn may_fail_alloc_zeroed(layout: Layout) -> *mut u8 {
-    if ALLOC_FAILS {
+    if refuse_now() {
         std::ptr::null_mut()
     } else {
         let p = alloc(layout);
@@ -33,7 +48,7 @@ unsafe impl std::alloc::GlobalAlloc for ReplayAlloc {
         std::alloc::System.dealloc(p, layout)
     }
     unsafe fn alloc_zeroed(&self, layout: Layout) -> *mut u8 {
-        if ALLOC_FAILS {
+        if refuse_now() {
             std::ptr::null_mut()
         } else {
             std::alloc::System.alloc_zeroed(layout)
@@ -65,11 +80,11 @@ fn c_build_context<C: CellType + kani::Arbitrary>() {
     let budget: usize = kani::any();
     cxt.budget = budget;
     unsafe {
-        ALLOC_FAILS = kani::any();
+        FAIL_MASK = kani::any();
         let ops = interp.build_context(cxt);
         // Reaching this point means the call returned: then the context is real memory.
         assert!(!ops.is_null());
-        assert!(!ALLOC_FAILS);
+        assert!(REFUSED == 0);
         assert!((*ops).min_accessed == interp.bytecode.min_accessed);
         assert!((*ops).max_accessed == interp.bytecode.max_accessed);
         assert!((*ops).context.budget == budget);
